@@ -5,7 +5,9 @@ with every flag combination, clear dispatch cache} on a fresh class lattice with
 and multiple inheritance and a built-in base, each in a pristine fork, checked operation
 by operation against a small reference model (RegistryModel).
 """
+import collections
 import itertools
+import re
 import sys
 import warnings
 
@@ -27,7 +29,7 @@ ASSUMPTIONS = [
 ]
 
 P = PP = None
-NAMES = ['A', 'B', 'C', 'D', 'E', 'F', 'G', 'L', 'M', 'N1', 'N2']
+NAMES = ['A', 'B', 'C', 'D', 'E', 'F', 'G', 'L', 'M', 'N1', 'N2', 'R', 'S']
 SMALL = ['A', 'B', 'C']
 FLAGS = [(cs, cd, rd) for cs in (False, True) for (cd, rd) in ((True, True), (True, False), (False, False))]
 PENDING, UNKNOWN, PROMOTED = 0, 1, 2
@@ -76,10 +78,20 @@ def lattice():
     # two nested classes sharing their __name__ (qualified names differ)
     N1 = mk('N', qualname='Outer1.N')
     N2 = mk('N', qualname='Outer2.N')
-    return dict(A=A, B=B, C=C, D=D, E=E, F=F, G=G, L=L, M=M, N1=N1, N2=N2)
+    # R and its subclass S use pretty_repr as their __repr__
+    R = mk('R')
+    S = mk('S', R)
+    R.__repr__ = P.pretty_repr
+    S.__repr__ = P.pretty_repr
+    return dict(A=A, B=B, C=C, D=D, E=E, F=F, G=G, L=L, M=M, N1=N1, N2=N2, R=R, S=S)
 
 
 BUNDLED = (list,)
+ADDR = re.compile(r'0x[0-9a-f]+')     # default object reprs (classes using pretty_repr, unregistered)
+
+
+def _norm(t):
+    return re.sub(r'\s+', '', ADDR.sub('0xADDR', t))
 
 
 class _IsInstance:
@@ -162,7 +174,8 @@ class Model:
 
 # ways an instance reaches the printer: bare, or as an element of a bundled container
 NEST_TEXT = {False: '%s', None: '%s', True: '[%s]', 'list2': '[%s, %s]', 'tuple2': '(%s, 1)',
-             'dictval': "{'k': %s}", 'deep': '[[%s], %s]'}
+             'dictval': "{'k': %s}", 'deep': '[[%s], %s]', 'commented': '%s  # note',
+             'odictval': "collections.OrderedDict([('k', %s)])", 'dequeel': 'collections.deque([%s, 1])'}
 
 
 def _nest(form, c):
@@ -178,6 +191,12 @@ def _nest(form, c):
         return {'k': c()}
     if form == 'deep':
         return [[c()], c()]
+    if form == 'commented':
+        return P.comment(c(), 'note')
+    if form == 'odictval':
+        return collections.OrderedDict(k=c())
+    if form == 'dequeel':
+        return collections.deque([c(), 1])
     raise core.HarnessError('bad nesting %r' % (form,))
 
 
@@ -213,7 +232,7 @@ def generate(rng, idx, tier):
                 n += 1
                 o.append('T%d' % n)
         return dict(ops=ops, enumerated=True)
-    w = dict(rc=rng.choice([1, 2, 3]), rn=rng.choice([1, 2, 4]), rp=rng.choice([0, 1, 2]),
+    w = dict(repr=rng.choice([0, 0, 1]), rc=rng.choice([1, 2, 3]), rn=rng.choice([1, 2, 4]), rp=rng.choice([0, 1, 2]),
              pr=rng.choice([2, 4, 6]), ir=rng.choice([1, 3, 5]), cc=rng.choice([0, 1]))
     kinds = [k for k, n in sorted(w.items()) for _ in range(n)]
     names = NAMES if rng.random() < 0.7 else rng.sample(NAMES, rng.randrange(2, 6))
@@ -226,8 +245,11 @@ def generate(rng, idx, tier):
             ops.append([k, c, tag])
         elif k == 'rp':
             ops.append(['rp', c if rng.random() < 0.8 else None, tag, 'fresh' if rng.random() < 0.4 else 'shared'])
+        elif k == 'repr':
+            ops.append(['repr', rng.choice(['R', 'S'])])
         elif k == 'pr':
-            ops.append(['pr', c, rng.choice([False, False, False, True, 'list2', 'tuple2', 'dictval', 'deep'])])
+            ops.append(['pr', c, rng.choice([False, False, False, True, 'list2', 'tuple2', 'dictval', 'deep', 'commented',
+                                            'odictval', 'dequeel'])])
         elif k == 'ir':
             if rng.random() < 0.05:
                 ops.append(['ir', c, [rng.random() < 0.5, False, True]])
@@ -319,11 +341,29 @@ def execute(spec):
             trace.append(op + [got])
             if registered:
                 res['nontrivial'] = True
-            if got != exp:
+            # layout (line breaks, indentation) is not C15's business: compare modulo whitespace
+            if _norm(got) != _norm(exp):
                 w = m.winner(c)
                 sig = 'print'
                 return fail('wrong_printer', sig, op=op, got=got, expected=exp,
                             winner=w.__name__ if w else None)
+        elif k == 'repr':
+            # repr() of a class whose __repr__ is pretty_repr: the printer's text if a class-kind
+            # registration covers it, else the default object repr
+            c = cls[op[1]]
+            exp_reg = m.isreg(c, True, True, True)
+            exp = m.tag(c)
+            try:
+                got = repr(c())
+            except Exception as e:
+                return fail('pretty_repr_raised', type(e).__name__, op=op, error=repr(e)[:200])
+            trace.append(op + [got])
+            if exp_reg:
+                m.after_print(c)
+                if got != exp:
+                    return fail('wrong_printer', 'pretty_repr', op=op, got=got, expected=exp)
+            elif not re.fullmatch(r'<[\w.]+ object at 0x[0-9a-f]+>', got):
+                return fail('wrong_printer', 'pretty_repr_unregistered', op=op, got=got)
         elif k == 'ir':
             c = cls[op[1]]
             cs, cd, rd = op[2]
